@@ -379,6 +379,8 @@ def check_kani_property(prop, spec, tier):
         hs = list(g.get(tier) or g.get("quick") or [])
         if tier == "thorough" and g.get("thorough_adds"):
             hs = list(g.get("quick", [])) + list(g["thorough_adds"])
+        if os.environ.get("VERIF_ONLY"):
+            hs = [h for h in hs if os.environ["VERIF_ONLY"] in h]
         if not hs:
             continue
         res, meta = run_kani(g.get("crate", crate), hs, cbmc_args=g.get("cbmc_args", ()), kani_args=g.get("kani_args", ()),
@@ -670,6 +672,11 @@ def main():
             i += 2
         elif args[i] == "--replay":
             replay = args[i + 1]
+            i += 2
+        elif args[i] == "--only":
+            # debugging aid: restrict a Kani-based check to the harnesses whose name contains the given text (the evidence
+            # file then describes this partial run; the registered commands never use it)
+            os.environ["VERIF_ONLY"] = args[i + 1]
             i += 2
         else:
             i += 1
